@@ -194,7 +194,8 @@ Connect ==
                  /\ RecordError("usbtest") /\ ret' = <<"bool", FALSE>> /\ pc' = "ret" /\ failed' = TRUE /\ UNCHANGED <<port, wr, prog, ver>>
             [] dev = "raise_on_probe" ->    \* the first probe's read raises: error, port closed
                  /\ RecordError("usbtest") /\ wr' = <<"v">> /\ ret' = <<"bool", FALSE>> /\ pc' = "ret" /\ failed' = TRUE /\ UNCHANGED <<port, prog, ver>>
-            [] dev \in {"non_ebb", "silent"} ->     \* two probes, neither verified
+            [] dev \in {"non_ebb", "other_versioned", "silent"} ->     \* two probes, neither verified (other_versioned: a foreign device whose banner
+                                                                       \* carries a "Firmware Version 3.1.0" of its own - it does not say it is an EBB)
                  /\ RecordError("noconnect") /\ wr' = <<"v", "v">> /\ ret' = <<"bool", FALSE>> /\ pc' = "ret" /\ failed' = TRUE /\ UNCHANGED <<port, prog, ver>>
             [] HasVersion(dev) /\ ~Supported(dev) ->           \* verified, firmware below the minimum
                  /\ RecordError("oldfw") /\ wr' = (IF Late(dev) THEN <<"v", "v">> ELSE <<"v">>) /\ ret' = <<"bool", FALSE>> /\ pc' = "ret" /\ failed' = TRUE /\ ver' = "old"
